@@ -334,6 +334,7 @@ func init() {
 						// the poller can only tell a new file from the old one when it is shorter than what was delivered
 						continue
 					}
+					opens := c15Opens(s, w.path) // before the file exists: the poller may notice it at this very instant
 					h, err := os.OpenFile(w.path, os.O_CREATE|os.O_EXCL|os.O_WRONLY|os.O_APPEND, 0o644)
 					if err != nil {
 						panic(err)
@@ -353,7 +354,6 @@ func init() {
 						if t.WBool(3, 4) {
 							w.appendBytes(&f, 1+t.W(prev-1), false)
 						}
-						opens := c15Opens(s, w.path)
 						if !w.waitUntil(2*c15Bound, func() bool { return c15Opens(s, w.path) > opens || len(w.delivered) > before }) {
 							rc.Violate("liveness-reopen", "%s: the re-created file (shorter than the %d bytes delivered before) was not re-opened within %v\nhistory:%s", w.mode(), prev, 2*c15Bound, w.history())
 							ended = true
